@@ -15,6 +15,12 @@ type Lexer struct {
 	hadNewline    bool // newline was seen before current token
 	lastNewLine   int  // position just after most recent newline
 	lineNumber    int
+	unterminated  bool // the input ended inside a string
+}
+
+// Unterminated tells if the end of the input was reached inside a string (more input is needed in line mode).
+func (l *Lexer) Unterminated() bool {
+	return l.unterminated
 }
 
 // Mode with input expected the be complete (multiline/file).
@@ -252,6 +258,7 @@ func (l *Lexer) readString(sep byte) (string, bool) {
 		case ch == sep:
 			return buf.String(), true
 		case ch == 0 && l.pastEnd():
+			l.unterminated = true
 			return buf.String(), false
 		}
 		buf.WriteByte(ch)
